@@ -3,7 +3,7 @@ import common
 import graph_prog as GP
 from common import cN, cZ, cnat, cbool, clist, copt, cpair
 
-PROOF_FILES = ['Proofs/NnxLift.v', 'Proofs/Axes.v']
+PROOF_FILES = ['Proofs/NnxLift.v', 'Proofs/Axes.v', 'Proofs/Alias.v']
 ASSUMPTIONS = [
     'jax.vmap = map over the index with batchedness tracked by dependency, lax.scan = fold, jax.grad = the symbolic derivative of the polynomial (idealised; not verified)',
     'an axis-group Variable is represented by its slices along the declared axis: the moveaxis arithmetic of the code is tied to the model by the correspondence (non-square shapes), not by a theorem',
@@ -428,6 +428,28 @@ Definition chk (b : bool) : bool := b.
         chk.violation('oracle', 'a bare Variable passed twice under the same axis is not accepted as one object', {'observed': r})
     elif 'err' not in r or 'nconsistent aliasing' not in r.get('msg', ''):
       chk.violation('oracle', 'one Variable reached under two different axis specifications (%s) was not rejected as inconsistent aliasing' % name, {'observed': r})
+  # the aliasing cases against Model/Alias.v: the occurrences (Variable, specification it is reached under) the harness built into each case
+  arows = []
+  occ = lambda pairs: common.clist(['(%s, %s)' % (common.cnat(v), common.cnat(p)) for v, p in pairs])
+  for k, r in enumerate(xr):
+    for c, o in zip(alias[k::W2], r['alias']):
+      sel = o['sel']
+      # the prefix a Variable is recorded under is the DiffState of its argument (argnum normalised away, the filter compared by equality)
+      pairs = [(0, FN.index(c['f0'])), (1, FN.index(c['f0'])), (1, FN.index(c['f1'])), (2, FN.index(c['f1']))]
+      arows.append((c, o, '(Bool.eqb (alias_ok %s) %s)' % (occ(pairs), common.cbool('err' not in o['impl']))))
+  AX0, AX1, NONE, DIFF, NODIFF = 0, 1, 9, 5, 6
+  bare = {'vmap(in_axes=(0, None))(v, v)': [(0, AX0), (0, NONE)], 'vmap(in_axes=(0, None))(Holder(v), v)': [(0, AX0), (0, NONE)],
+          'vmap(in_axes=(StateAxes({Param: None}), 0))(Holder(v), v)': [(0, NONE), (0, AX0)], 'vmap(lambda v: v, in_axes=0, out_axes=1)(v)': [(0, AX0), (0, AX1)],
+          'scan(in_axes=(0, None))(v, v)': [(0, AX0), (0, NONE)], 'grad(argnums=0)(p, p)': [(0, DIFF), (0, NODIFF)], 'vmap(in_axes=(0, None))(m, m)': [(0, AX0), (0, NONE)],
+          '_consistent': [(0, AX0), (0, AX0)]}
+  for name, r in ba.items():
+    if name in bare:
+      arows.append(({'bare': name}, r, '(Bool.eqb (alias_ok %s) %s)' % (occ(bare[name]), common.cbool('err' not in r))))
+  abad = common.coq_mismatches('c08_alias', 'From Flaxm Require Import Lib.Harness Model.Alias.\nDefinition chk (b : bool) : bool := b.\n', [x[2] for x in arows], 'chk', shard=200)
+  for i in abad[:6]:
+    chk.violation('correspondence', 'Model/Alias.v and nnx disagree on whether arguments that alias one Variable are accepted (C08_aliasing_* no longer transfer)',
+                  {'case': arows[i][0], 'observed': arows[i][1]})
+  chk.cov['traces_validated_against_impl'] = chk.cov.get('traces_validated_against_impl', 0) + len(arows)
   chk.notes['stats'] = stat
   chk.cov['rule'] = ('modules with 1-5 Variables (5 types incl. a subclass, top-level and nested paths) x StateAxes of 0-4 (filter, axis 0 / 1 / None / Carry) entries with and without a catch-all x '
                      'non-square shapes of rank 0-3 x integer bodies (add expression to a Variable, scale, set carry; sums, mapped input, carry) x lengths 1-4 x reverse; losses = random polynomials, '
